@@ -2,5 +2,5 @@ CONSTANTS NodeId = 5  Walk = FALSE  WalkLen = 0  CfgName = "A"
 CONSTANT Groups <- GA  Dflt <- DA  Letters <- LA  ProbeLetters <- PP
 INIT Init
 NEXT Next
-VIEW View
+VIEW ViewM
 INVARIANT InvC17
